@@ -86,3 +86,33 @@ PROPS['C01'] = dict(
         thorough=[rc(600000, shards=4, max_size=500, corpus=CORPUS), fuzz(40000000, shards=12, max_len=4096, corpus=CORPUS)],
     ),
 )
+
+PROPS['C14'] = dict(
+    harness='text', env={'VH_PROP': 'C14'},
+    rule=('cases: valid documents (generated trees of all seven types incl. names/strings with 0x00, quotes, %; nesting chains; shipped valid corpus files) '
+          'rendered by to_string (capacity = size reported by the NULL query) and by print (fd 1 captured in a memfd), both compared byte for byte with '
+          'the reference renderer; plus every tree with <= N nodes over {object, array, int, bool} (all combinations of empty/non-empty containers as '
+          'first/middle/last sibling). Non-trivial iff the tree has >= 2 siblings at some level and >= 1 nested container; distinct = hash(document).'),
+    tiers=dict(
+        quick=[enum(shards=4, variant='san', env={'VH_ENUM_N': '6'}), rc(30000, shards=6, max_size=250, corpus=['valid_objects']),
+               fuzz(150000, shards=6, corpus=['valid_objects'])],
+        thorough=[enum(shards=8, variant='san', env={'VH_ENUM_N': '8'}), rc(600000, shards=4, max_size=500, corpus=['valid_objects']),
+                  fuzz(6000000, shards=12, max_len=1024, corpus=['valid_objects'])],
+    ),
+    exhaustive_note=lambda tier, tot: [dict(scope='all object- and array-rooted trees with <= %d nodes over {object, array, int, bool}' % (6 if tier == 'quick' else 8),
+                                             exhaustive=True, trees=tot['counters'].get('enum_trees', 0))],
+)
+PROPS['C13'] = dict(
+    harness='text', env={'VH_PROP': 'C13'},
+    rule=('cases: (document, capacity) pairs: valid documents (long byte strings, doubles printing 300+ digits, deep nesting) x every capacity 0..need+3 '
+          '(need <= 600) or capacities around every structural character, need-4..need+3 and 16 generated ones (larger texts); invalid/mutated/raw '
+          'documents x 6 capacities + NULL. Destination is a heap block of exactly `capacity` bytes. Non-trivial iff 0 < capacity < need on a valid '
+          'document (the text is cut), or the document is invalid; distinct = hash(document, capacity).'),
+    tiers=dict(
+        quick=[enum(shards=2, variant='san', env={'VH_ENUM_N': '5'}), rc(10000, shards=7, max_size=250, corpus=CORPUS), fuzz(10000, shards=7, max_len=256, corpus=CORPUS)],
+        thorough=[enum(shards=4, variant='san', env={'VH_ENUM_N': '7'}), rc(300000, shards=4, max_size=500, corpus=CORPUS),
+                  fuzz(400000, shards=12, max_len=1024, corpus=CORPUS)],
+    ),
+    exhaustive_note=lambda tier, tot: [dict(scope='every capacity 0..need+3 of every tree with <= %d nodes over {object, array, int, bool}' % (5 if tier == 'quick' else 7),
+                                             exhaustive=True, trees=tot['counters'].get('enum_trees', 0))],
+)
